@@ -23,7 +23,7 @@ DHCP6 = dict(DHCP4, pkg="./dhcp6", impl_module="Dhcp6Impl", design=[])
 def runner(prop, fam, tier, seed, replay):
     """Runs the v4 half then the v6 half; evidence of both is merged."""
     t0 = time.time()
-    evp = os.path.join(vcheck.VERIF, "evidence", prop + ".json")
+    evp = vcheck.evidence_path(prop)
     rcs, evs = [], []
     halves = [("v4", DHCP4), ("v6", DHCP6)]
     if replay:
